@@ -255,3 +255,27 @@ def enum_exprs(variables, k, consts=True):
                         out.append((o, x, y))
         levels.append(out)
     return [e for lv in levels for e in lv]
+
+
+def fresh_str(x):
+    """An equal str that is (where CPython allows) another object: names computed at run time."""
+    return (x + '#')[:-1]
+
+
+def shannon_build(BDDNode, tt, variables, order, fresh=True):
+    """Diagram of the truth table tt built bottom-up through the BDDNode constructor (Shannon
+    expansion along `order`), never through the expression parser or apply; every label is a
+    freshly created str object when fresh=True."""
+    n = len(variables)
+
+    def rec(t, rest):
+        if t == 0:
+            return BDDNode(0)
+        if t == tt_full(n):
+            return BDDNode(1)
+        v = rest[0]
+        i = variables.index(v)
+        lo = rec(cofactor(t, i, False, n), rest[1:])
+        hi = rec(cofactor(t, i, True, n), rest[1:])
+        return BDDNode(fresh_str(v) if fresh else v, lo, hi)
+    return rec(tt, list(order))
